@@ -3,8 +3,9 @@ import Okane.Lemmas.C05ImagePosting
 # Image lemmas for C05, part 6: transactions
 
 `transaction_image`: the header (date, effective date, clear mark, code, payee), its metadata and its postings.
-The payee is where the hypothesis `parensClosed` is used: with no `)` anywhere later in the text `paren_str` fails, a
-text `(abc` becomes the payee, and `wfPayee` does not accept a payee that begins with `(`.
+The payee may begin with `(` when no code was read: `paren_str` fails exactly when the `(` is not closed on its line, the
+text `(abc` becomes the payee, it holds no `)` (`parenStr_bt`), and that is what `wfPayee` asks of such a payee.  No
+hypothesis on the text is needed for this.
 -/
 set_option linter.unusedSimpArgs false
 set_option linter.unusedVariables false
@@ -26,18 +27,34 @@ theorem dropWhile_nil_all {p : Char → Bool} : ∀ {l : List Char}, l.dropWhile
       · exact ih h c hc
     · simp [List.dropWhile, hd] at h
 
-/-- `paren_str` followed by blanks can only fail after `(` for want of a `)` -/
-theorem parenStr_bt {t z : List Char} (h : terminated parenStr space0 ('(' :: t) = .bt z) : ')' ∉ t := by
-  intro hm
-  cases hd : t.dropWhile (fun c => !(c == ')')) with
-  | nil =>
-    have := dropWhile_nil_all hd ')' hm
-    simp at this
-  | cons d b =>
-    have hdd := dropWhile_Stop (fun c => !(c == ')')) t d b hd
-    have hd' : d = ')' := by simpa using hdd
-    subst hd'
-    simp [parenStr, paren, takeTill0, takeWhile0, hd, space0] at h
+/-- `paren_str` followed by blanks can only fail after `(` when the `(` is not closed on its line: no `)` follows text
+without `)`, CR, LF -/
+theorem parenStr_bt {t z : List Char} (h : terminated parenStr space0 ('(' :: t) = .bt z) :
+    ∀ a b, t = a ++ ')' :: b → (∀ x ∈ a, isParenStrStop x = false) → False := by
+  intro a b e ha
+  subst e
+  have ht := takeTill0_append (p := isParenStrStop) (a := a) (rest := ')' :: b) ha (by intro x r e; cases e; rfl)
+  simp [parenStr, paren, ht, space0, takeWhile0] at h
+
+/-- a list that holds `)` splits at its first `)` -/
+theorem split_first_close : ∀ {l : List Char}, ')' ∈ l → ∃ a b, l = a ++ ')' :: b ∧ ')' ∉ a := by
+  intro l
+  induction l with
+  | nil => intro h; cases h
+  | cons c t ih =>
+    intro h
+    by_cases hc : c = ')'
+    · subst hc; exact ⟨[], t, rfl, by simp⟩
+    · have ht : ')' ∈ t := by
+        rcases List.mem_cons.mp h with e | h
+        · exact absurd e.symm hc
+        · exact h
+      obtain ⟨a, b, rfl, ha⟩ := ih ht
+      refine ⟨c :: a, b, rfl, ?_⟩
+      intro hm
+      rcases List.mem_cons.mp hm with e | hm
+      · exact hc e.symm
+      · exact ha hm
 
 theorem lineEndingOrEof_stop {r r' : List Char} {u : Unit} (h : lineEndingOrEof r = .ok u r') : Stop isSpace r := by
   unfold lineEndingOrEof at h
@@ -70,23 +87,23 @@ theorem safe_postItem : Safe 1 (preceded (pair (takeWhile1 isSpace) (Comb.not li
 
 /-- the payee, given what precedes it -/
 theorem payee_image {r3 r4 r5 r6 : List Char} {cs : ClearState} {code payee : Option (List Char)}
-    (hok3 : TextOK r3) (hstop3 : Stop isSpace r3) (hcs : clearState r3 = .ok cs r4)
+    (hstop3 : Stop isSpace r3) (hcs : clearState r3 = .ok cs r4)
     (hcode : opt (terminated parenStr space0) r4 = .ok code r5)
     (hpayee : opt (map trimEnd tillLineEndingOrSemi) r5 = .ok payee r6) :
     let s := payee.getD []
     (s.all (fun c => !(c == ';' || c == '\r' || c == '\n')) && notBlankStart s && endTrimmed s &&
-      (code.isSome || ((cs != .uncleared || notClearMarkStart s) && s.head? != some '('))) = true ∧
-    (∀ c, code = some c → c.all (· != ')') = true) := by
+      (code.isSome || ((cs != .uncleared || notClearMarkStart s) && (s.head? != some '(' || !s.contains ')')))) = true ∧
+    (∀ c, code = some c → wfCode c = true) := by
   intro s
-  have hok4 : TextOK r4 := hok3.suffix (safe_clearState.suffix hcs)
   -- the position after the clear mark does not begin with a blank
   have hstop4 : Stop isSpace r4 := by
     rcases clearState_ok hcs with ⟨_, rfl, _⟩ | ⟨_, h⟩
     · exact hstop3
     · exact h
   -- the code
-  have hcodeP : (∀ c, code = some c → c.all (· != ')') = true ∧ Stop isSpace r5) ∧
-      (code = none → r5 = r4 ∧ ∀ t, r4 ≠ '(' :: t) := by
+  have hcodeP : (∀ c, code = some c → wfCode c = true ∧ Stop isSpace r5) ∧
+      (code = none → r5 = r4 ∧ ∀ t, r4 = '(' :: t →
+        ∀ a b, t = a ++ ')' :: b → (∀ x ∈ a, isParenStrStop x = false) → False) := by
     rcases opt_ok_iff.1 hcode with ⟨c, hc, rfl⟩ | ⟨⟨z, hz⟩, rfl, rfl⟩
     · refine ⟨?_, fun h => by cases h⟩
       intro c' hc'
@@ -96,14 +113,14 @@ theorem payee_image {r3 r4 r5 r6 : List Char} {cs : ClearState} {code payee : Op
       refine ⟨?_, (space0_ok hsp).2.2⟩
       unfold parenStr paren at hps
       obtain ⟨_, _, _, _, _, htt, _⟩ := delimited_ok_iff.1 hps
-      simp only [List.all_eq_true]
+      simp only [wfCode, List.all_eq_true]
       intro x hx
       have := (takeTill0_ok htt).2.1 x hx
       simpa using this
     · refine ⟨fun c h => (by cases h), fun _ => ⟨rfl, ?_⟩⟩
       intro t e
       subst e
-      exact parenStr_bt hz hok4.paren
+      exact parenStr_bt hz
   have hstop5 : Stop isSpace r5 := by
     cases hcd : code with
     | none => rw [(hcodeP.2 hcd).1]; exact hstop4
@@ -135,10 +152,36 @@ theorem payee_image {r3 r4 r5 r6 : List Char} {cs : ClearState} {code payee : Op
             · obtain ⟨h1, h2⟩ := hhead c (t' ++ r6) (by rw [← hr43, hr4])
               simp [notClearMarkStart, h1, h2]
             · cases cs <;> simp_all
-          · simp only [List.head?_cons, bne_iff_ne, ne_eq, Option.some.injEq]
-            intro e
-            subst e
-            exact hnop _ hr4
+          · -- a payee that begins with `(` holds no `)`: otherwise the code would have been read
+            by_cases hc : c = '('
+            · subst hc
+              simp only [List.head?_cons, bne_self_eq_false, Bool.false_or, Bool.not_eq_true']
+              cases hcon : ('(' :: t).contains ')' with
+              | false => rfl
+              | true =>
+                exfalso
+                have hmem : ')' ∈ t := by
+                  have := List.contains_iff_mem.mp hcon
+                  rcases List.mem_cons.mp this with e | h
+                  · cases e
+                  · exact h
+                -- `t` is the payee without its first character, `t'` the untrimmed one
+                have hmem' : ')' ∈ t' := by
+                  have : ')' ∈ trimEnd l := by rw [hte]; exact List.mem_cons_of_mem _ hmem
+                  have := mem_trimEnd this
+                  rw [hl'] at this
+                  rcases List.mem_cons.mp this with e | h
+                  · cases e
+                  · exact h
+                obtain ⟨a, b, hab, ha⟩ := split_first_close hmem'
+                refine hnop (t' ++ r6) hr4 a (b ++ r6) (by rw [hab]; simp) ?_
+                intro x hx
+                have hxl : x ∈ l := by rw [hl', hab]; simp [hx]
+                have h1 := hlall x hxl
+                simp only [Bool.or_eq_false_iff, beq_eq_false_iff_ne] at h1
+                have h2 : x ≠ ')' := fun e => ha (e ▸ hx)
+                simp [isParenStrStop, h2, h1.1.2, h1.2]
+            · simp [hc]
   · simp [s, notBlankStart, endTrimmed, notClearMarkStart]
 
 /-! ## the transaction -/
@@ -159,7 +202,7 @@ theorem transaction_image {i r : List Char} {t : Transaction} (hi : TextOK i) (h
   have hok5 : TextOK r5 := hok4.suffix (safe_codePart.suffix hcode)
   have hok6 : TextOK r6 := hok5.suffix (safe_payeePart.suffix hpayee)
   have hok7 : TextOK r7 := hok6.suffix (safe_blockMetadata.suffix hmd)
-  obtain ⟨hpay, hcodeOK⟩ := payee_image hok3 hstop3 hcs hcode hpayee
+  obtain ⟨hpay, hcodeOK⟩ := payee_image hstop3 hcs hcode hpayee
   have hmdOK := blockMetadata_image hok6 hmd
   obtain ⟨hsteps, _⟩ := repeat0_ok hposts
   have hpostsOK := (Steps.forall
@@ -190,7 +233,7 @@ theorem transaction_image {i r : List Char} {t : Transaction} (hi : TextOK i) (h
       | none => rfl
       | some c =>
         have := hcodeOK c rfl
-        simpa [List.all_eq_true] using this
+        simpa using this
     · simpa only [Bool.and_eq_true, List.all_eq_true] using hpay
     · intro p hp
       obtain ⟨p', hp', rfl⟩ := List.mem_map.mp hp
